@@ -97,7 +97,8 @@ Proof.
   rewrite Etop in Ea. rewrite Ea. cbn [lift length].
   change (Z.of_nat 0 mod U32) with 0.
   destruct (skip_consumed bf (length (streamk bf S0 top top)) 0 Hbf ltac:(lia)) as (s2 & Esk & Ec).
-  { intros _. unfold U32. lia. }
+  { intros _. unfold st_of_index, U32. destruct (bf =? 2); [cbn [snd]; lia|]. destruct (bf =? 4); [cbn [snd]; lia|].
+    destruct (bf =? 8); cbn [snd]; lia. }
   rewrite Esk, Ec.
   replace (Z.to_nat (((Z.of_nat (length (streamk bf S0 top top)) + 0) * bf + 7) / 8)) with (length tree)
     by (rewrite Z.add_0_r, <- Elen; lia).
